@@ -365,7 +365,7 @@ def Rule.variablesUnsorted (cf : CaseFns) (r : Rule) (captured : List (Str × St
 
 /-- `Rule::variables` -/
 def Rule.vars (cf : CaseFns) (r : Rule) (captured : List (Str × Str)) (q : Request) : List (Str × Str) :=
-  sortByLen (r.variablesUnsorted cf captured q)
+  sortVars (r.variablesUnsorted cf captured q)
 
 /-- What is observed of the action of one matched rule. -/
 structure Outcome where
